@@ -120,6 +120,10 @@ def decodeKids (f : File) (ps hwm : Nat) : Nat → List BranchElem → Phys → 
     let ph := match a with
       | (k, _) :: _ => if bytesLt k e.key then ph.err s!"page {e.pgid}: first key below the parent separator" else ph
       | [] => ph
+    -- every key of this child is below the next separator
+    let ph := match rest with
+      | nxt :: _ => if a.any (fun kv => !bytesLt kv.1 nxt.key) then ph.err s!"page {e.pgid}: key not below the next separator of the parent" else ph
+      | [] => ph
     let (b, ph) := decodeKids f ps hwm fuel rest ph
     (a ++ b, ph)
 termination_by fuel es => (fuel, es.length + 1)
